@@ -348,28 +348,40 @@ func ruleEndpointOrder(c *Ctx) {
 		}
 	}
 	sides := map[int64]sideDef{}
-	ast.Inspect(ps.Body, func(n ast.Node) bool {
-		ifs, ok := n.(*ast.IfStmt)
-		if !ok {
-			return true
-		}
-		be, ok := ast.Unparen(ifs.Cond).(*ast.BinaryExpr)
+	// a row is `if p[a] == b.Side[a] { return K }` or the same as a tagless
+	// switch case
+	row := func(cond ast.Expr, body []ast.Stmt) {
+		be, ok := ast.Unparen(cond).(*ast.BinaryExpr)
 		if !ok || be.Op != token.EQL {
-			return true
+			return
 		}
 		k1, s1, a1, ok1 := coordOf(pk, be.X, pointPar, boundPar)
 		k2, s2, a2, ok2 := coordOf(pk, be.Y, pointPar, boundPar)
 		if !ok1 || !ok2 || k1 == k2 || a1 != a2 {
-			return true
+			return
 		}
 		side := s2
 		if k1 == "box" {
 			side = s1
 		}
-		for _, st := range ifs.Body.List {
+		for _, st := range body {
 			if rs, ok := st.(*ast.ReturnStmt); ok && len(rs.Results) == 1 {
 				if v, ok := constInt(pk, rs.Results[0]); ok {
 					sides[v] = sideDef{a1, side}
+				}
+			}
+		}
+	}
+	ast.Inspect(ps.Body, func(n ast.Node) bool {
+		switch s := n.(type) {
+		case *ast.IfStmt:
+			row(s.Cond, s.Body.List)
+		case *ast.SwitchStmt:
+			if s.Tag == nil {
+				for _, st := range s.Body.List {
+					if cc, ok := st.(*ast.CaseClause); ok && len(cc.List) == 1 {
+						row(cc.List[0], cc.Body)
+					}
 				}
 			}
 		}
@@ -385,8 +397,23 @@ func ruleEndpointOrder(c *Ctx) {
 		rel    string
 		before bool
 	}
+	// a local defined once stands for its definition
+	resolve := func(e ast.Expr) ast.Expr {
+		for k := 0; k < 4; k++ {
+			id, isID := ast.Unparen(e).(*ast.Ident)
+			if !isID {
+				break
+			}
+			def := singleDef(pk, less, id)
+			if def == nil {
+				break
+			}
+			e = def
+		}
+		return ast.Unparen(e)
+	}
 	operand := func(e ast.Expr) (idx string, axis int64, before bool, ok bool) {
-		ie, isIdx := ast.Unparen(e).(*ast.IndexExpr)
+		ie, isIdx := resolve(e).(*ast.IndexExpr)
 		if !isIdx {
 			return
 		}
@@ -399,9 +426,16 @@ func ruleEndpointOrder(c *Ctx) {
 		if !before && !strings.HasSuffix(txt, ".Point") {
 			return
 		}
-		// which element: e.eps[i] or e.eps[j]
+		// which element: e.eps[i] or e.eps[j] (possibly through a local)
 		var which string
-		ast.Inspect(ie.X, func(n ast.Node) bool {
+		var base ast.Expr = ie.X
+		if call, isCall := ast.Unparen(base).(*ast.CallExpr); isCall {
+			base = call.Fun
+		}
+		if se, isSel := ast.Unparen(base).(*ast.SelectorExpr); isSel {
+			base = resolve(se.X)
+		}
+		ast.Inspect(base, func(n ast.Node) bool {
 			if in, ok := n.(*ast.IndexExpr); ok {
 				if id, ok := in.Index.(*ast.Ident); ok && which == "" {
 					which = id.Name
